@@ -1,5 +1,6 @@
 import AcVerif.Cert
 import AcVerif.Table
+import AcVerif.Proofs.Transfer
 /-!
 # C04 – automaton kind and representation options never change any result
 
@@ -26,5 +27,54 @@ theorem C04_cert_start {σ : Type} [DecidableEq σ]
     (f : Array (Option σ)) (h : certOk A B n anch first f allBytes = true) :
     (A.start anch).isSome = (B.start anch).isSome :=
   certOk_start h
+
+end AcVerif
+
+/-! ## Engine level: observationally equivalent automata give identical search
+results, for every prefilter function and every input -/
+
+namespace AcVerif
+variable {σ τ α : Type}
+
+/-- whole-list equivalence implies first-pattern equivalence -/
+theorem C04_ObsEquiv_false_true (A : Aut σ α) (B : Aut τ α) (anch : Bool) (a : σ) (b : τ)
+    (h : ObsEquiv A B false anch a b) : ObsEquiv A B true anch a b := h.toFirst
+
+theorem C04_StartEquiv_false_true (A : Aut σ α) (B : Aut τ α) (anch : Bool)
+    (h : StartEquiv A B false anch) : StartEquiv A B true anch := EngP.StartEquiv_toFirst h
+
+/-- non-overlapping search (any prefilter function `pre`, any input): only the
+first listed pattern matters -/
+theorem C04_find_transfer (A : Aut σ α) (B : Aut τ α) (pre : Option (Prefilter α)) (i : Input α)
+    (hk : A.kind = B.kind) (hl : ∀ pid, A.patLen pid = B.patLen pid)
+    (h : StartEquiv A B true i.anch) :
+    tryFindFwd A pre i = tryFindFwd B pre i :=
+  EngP.tryFindFwd_transfer A B pre i true hk hl h
+
+/-- stepwise overlapping search: whole match lists matter (`first = false`) -/
+theorem C04_overlap_transfer (A : Aut σ α) (B : Aut τ α) (pre : Option (Prefilter α)) (i : Input α)
+    (hk : A.kind = B.kind) (hl : ∀ pid, A.patLen pid = B.patLen pid)
+    (h : StartEquiv A B false i.anch) (n : Nat) :
+    ovlCalls A pre i n OState.start = ovlCalls B pre i n OState.start :=
+  EngP.ovlCalls_transfer A B pre i hk hl h n _ _ (EngP.ORel.start A B i.anch)
+
+theorem C04_overlap_iter_transfer (A : Aut σ α) (B : Aut τ α) (pre : Option (Prefilter α))
+    (i : Input α) (hk : A.kind = B.kind) (hl : ∀ pid, A.patLen pid = B.patLen pid)
+    (h : StartEquiv A B false i.anch) (fuel : Nat) :
+    ovlIterAux A pre i fuel OState.start = ovlIterAux B pre i fuel OState.start :=
+  EngP.ovlIterAux_transfer A B pre i hk hl h fuel _ _ (EngP.ORel.start A B i.anch)
+
+/-- the non-overlapping iterator -/
+theorem C04_iter_transfer (A : Aut σ α) (B : Aut τ α) (pre : Option (Prefilter α)) (i : Input α)
+    (hk : A.kind = B.kind) (hl : ∀ pid, A.patLen pid = B.patLen pid)
+    (h : StartEquiv A B true i.anch) :
+    findIter A pre i = findIter B pre i :=
+  EngP.findIter_transfer A B pre i hk hl h
+
+/-- a passing certificate over the full byte alphabet gives `StartEquiv` -/
+theorem C04_cert_gives_StartEquiv {σ : Type} [DecidableEq σ] (A : Aut σ UInt8) (B : Aut Nat UInt8)
+    (n : Nat) (anch first : Bool) (f : Array (Option σ))
+    (h : certOk A B n anch first f allBytes = true) : StartEquiv A B first anch :=
+  EngP.cert_gives_StartEquiv A B n anch first f h
 
 end AcVerif
